@@ -172,7 +172,7 @@ func c04Unbind(r *Run, m *ServerModel) {
 				r.ok("r2", key, pos, "DeleteFID on every path to this exit")
 				continue
 			}
-			if v, ok := errnoOf(info, ex.Ret); ok && v == 9 && !ex.St.May["p9.connState.DeleteFID"] && nm == "tremove.handle" && ex.St.holds("ok", false) {
+			if v, ok := errnoOf(info, ex.Ret); ok && v == 9 && !ex.St.May["p9.connState.DeleteFID"] && nm == "tremove.handle" && ex.St.holds(m.resultName(fi, -1, isCallTo(info, "p9.connState.LookupFID")), false) {
 				r.ok("r2", key, pos, "fid was not bound")
 				continue
 			}
